@@ -1,10 +1,80 @@
 (* C01  Double-entry conservation: every complete report nets to zero.
-   (placeholder while the proofs are being developed; see Proofs/ConservationProofs.v) *)
-From Coq Require Import ZArith List Bool.
-From Knut Require Import Model.Dec Proofs.DecProofs.
-Open Scope Z_scope.
+   Theorem statements only.  Model: Model/Cli.v balance_table (the whole pipeline of
+   `knut balance`: directives -> accrual expansion -> days -> check, prices, valuate, filter,
+   close, query -> report trees -> table).  Vocabulary: Spec/BalanceSpec.v complete_cfg,
+   Proofs/Conservation.v zero_cell. *)
+From Coq Require Import ZArith QArith List Bool.
+From Knut Require Import Model.Str Model.Dec Model.Date Model.Account Model.Ledger Model.Journal
+     Model.Pipeline Model.Table Model.Report Model.Cli Spec.BalanceSpec
+     Proofs.DecProofs Proofs.DecValue Proofs.PairProofs Proofs.ReportSum Proofs.Conservation.
+Import ListNotations.
 
-(* the two halves of a posting pair cancel exactly *)
+(* For every journal (any directives, accruals, prices, negative and zero amounts) and every
+   configuration that filters and hides nothing (any window, interval, --last, --diff, --close,
+   valuation commodity, --remap, mappings of level >= 1, sort order): if the command succeeds,
+   the table ends with a block of rows labelled "Delta" followed by one separator row, and every
+   numeric cell of that block is zero (is_zero, i.e. coefficient 0; the text renderer prints
+   such a cell blank, the CSV renderer prints 0). *)
+Theorem C01_delta_zero : forall cfg ds t,
+  complete_cfg cfg = true ->
+  balance_table cfg ds = COk t ->
+  exists rows0 delta_rows sep,
+    t_rows t = rows0 ++ delta_rows ++ [sep] /\
+    Forall (Forall zero_cell) delta_rows /\
+    (exists r rest, delta_rows = (CText s_Delta ALeft 0 :: r) :: rest).
+Proof. exact delta_zero. Qed.
+Print Assumptions C01_delta_zero.
+
+(* the invariant behind it: every transaction that reaches the report -- user bookings,
+   accrual legs, value adjustments, closing transactions -- is a list of posting pairs whose
+   quantities and values are exact negatives of each other *)
+Theorem C01_pairs_established : forall cr db com q v, paired (pair_build cr db com q v).
+Proof. exact pair_build_paired. Qed.
+Print Assumptions C01_pairs_established.
+
+Theorem C01_pairs_from_journal : forall l ds,
+  parse_directives l = MOk ds -> Forall day_ok (b_days (builder_of ds)).
+Proof. intros l ds H. apply builder_of_ok. eapply parse_directives_ok. exact H. Qed.
+Print Assumptions C01_pairs_from_journal.
+
+Theorem C01_pairs_preserved_by_valuation : forall v s ds s' ds',
+  Forall day_ok ds -> process_days (valuate_proc v) s ds = ROk (s', ds') -> Forall day_ok ds'.
+Proof. exact valuate_stage_ok. Qed.
+Print Assumptions C01_pairs_preserved_by_valuation.
+
+Theorem C01_pairs_preserved_by_closing : forall cds s ds s' ds',
+  Forall day_ok ds -> process_days (close_proc cds) s ds = ROk (s', ds') -> Forall day_ok ds'.
+Proof. exact close_stage_ok. Qed.
+Print Assumptions C01_pairs_preserved_by_closing.
+
+(* inserting the two halves of a pair leaves every key's grand total (A+L plus E+I+E)
+   unchanged; stated for the value sum over both report trees *)
+Theorem C01_report_balanced : forall q f r ds r' ds',
+  (forall a c, q_where q a c = true) -> (forall a, q_account q a <> ShHidden) ->
+  balanced_report f r -> Forall day_ok ds ->
+  process_days (query_proc q report_insert) r ds = ROk (r', ds') -> balanced_report f r'.
+Proof. intros q f r ds r' ds' H1 H2. exact (query_stage_balanced q f H1 H2 r ds r' ds'). Qed.
+Print Assumptions C01_report_balanced.
+
+(* exact cancellation of a pair under decimal addition *)
 Theorem C01_pair_cancels : forall d, is_zero (add d (neg d)) = true.
 Proof. exact add_neg_zero. Qed.
 Print Assumptions C01_pair_cancels.
+
+(* non-vacuity: a two-currency journal with a valuation, closing and monthly columns *)
+Open Scope Z_scope.
+Example C01_example :
+  let acc s := acc_of_name s in
+  let A := [65;115;115;101;116;115;58;66] (* Assets:B *) in
+  let E := [69;120;112;101;110;115;101;115;58;82] (* Expenses:R *) in
+  let chf := [67;72;70] in let usd := [85;83;68] in
+  let d0 := Date.of_civil 2020 1 5 in
+  let ds := [ SOpen d0 (acc A); SOpen d0 (acc E);
+              SPrice d0 usd (mkDec 95 (-2)) chf;
+              SPrice (d0 + 40) usd (mkDec 91 (-2)) chf;
+              STxn (mkStxn (d0 + 1) [] [mkBooking (acc A) (acc E) (mkDec 1234 (-2)) usd] None None);
+              STxn (mkStxn (d0 + 50) [] [mkBooking (acc E) (acc A) (mkDec (-7) 0) chf] None None) ] in
+  let cfg := mkBalanceCfg 0 (d0 + 90) Monthly 0 false true (Some chf) true [] [] [] [] [] true in
+  complete_cfg cfg = true /\
+  match balance_table cfg ds with COk t => (6 <=? Z.of_nat (length (t_rows t)))%Z = true | _ => False end.
+Proof. vm_compute. split; reflexivity. Qed.
